@@ -78,7 +78,35 @@ def install():
     for name, mod in list(sys.modules.items()):
         if name.startswith("groupby_lib") and mod is not None and getattr(mod, "parallel_map", None) is orig:
             setattr(mod, "parallel_map", observed_parallel_map)
+    install_parallel_kernel_guards()
     STATE["installed"] = True
+
+
+def install_parallel_kernel_guards():
+    """NUMBA_BOUNDSCHECK does not instrument `parallel=True` kernels (verified: an out-of-bounds read inside a prange loop
+    goes unnoticed), so their implicit precondition - all element-wise operands have one length - is asserted here, at the
+    call boundary, in every mode.  A violation is recorded as a side failure; the real kernel is still called."""
+    import groupby_lib.groupby.numba as nbk
+
+    real = getattr(nbk, "reduce_array_pair", None)
+    if real is None or getattr(real, "_gbv_guard", False):
+        return
+
+    def guarded_reduce_array_pair(x, y, reducer, counts=None, other_counts=None):
+        STATE["guard_calls"] = STATE.get("guard_calls", 0) + 1
+        lens = {"x": len(x), "y": len(y)}
+        if counts is not None:
+            lens["counts"] = len(counts)
+        if other_counts is not None:
+            lens["other_counts"] = len(other_counts)
+        if len(set(lens.values())) > 1:
+            STATE["pm_fail"].append(f"reduce_array_pair (parallel kernel, no bounds checks) called with operands of different lengths {lens}: "
+                                    f"out-of-bounds read/write")
+        return real(x, y, reducer, counts, other_counts) if counts is not None or other_counts is not None else real(x, y, reducer)
+
+    guarded_reduce_array_pair._gbv_guard = True
+    guarded_reduce_array_pair.__wrapped__ = real
+    nbk.reduce_array_pair = guarded_reduce_array_pair
 
 
 def set_jitter(seed):
@@ -149,7 +177,7 @@ def drain_side_failures():
     """failures recorded by the always-on monitors (parallel_map gather, input snapshots)."""
     out = []
     for d in STATE["pm_fail"]:
-        out.append({"monitor": "pm.gather", "detail": d})
+        out.append({"monitor": "sanitizer.parallel_kernel" if d.startswith("reduce_array_pair") else "pm.gather", "detail": d})
     for d in STATE["c19_fail"]:
         out.append({"monitor": "c19.input_modified", "detail": d})
     STATE["pm_fail"].clear()
